@@ -289,6 +289,8 @@ impl<const BITS: usize, const LIMBS: usize> Uint<BITS, LIMBS> {
     #[must_use]
     pub fn overflowing_from_limbs_slice(slice: &[u64]) -> (Self, bool) {
         if slice.len() < LIMBS {
+            #[cfg(feature = "recmo_uint_verif")]
+            crate::verif_hooks::hit(75);
             let mut limbs = [0; LIMBS];
             limbs[..slice.len()].copy_from_slice(slice);
             (Self::from_limbs(limbs), false)
@@ -297,7 +299,13 @@ impl<const BITS: usize, const LIMBS: usize> Uint<BITS, LIMBS> {
             let mut limbs = [0; LIMBS];
             limbs.copy_from_slice(head);
             let mut overflow = tail.iter().any(|&limb| limb != 0);
+            #[cfg(feature = "recmo_uint_verif")]
+            crate::verif_hooks::hit(76);
             if LIMBS > 0 {
+                #[cfg(feature = "recmo_uint_verif")]
+                if limbs[LIMBS - 1] > Self::MASK {
+                    crate::verif_hooks::hit(77);
+                }
                 overflow |= limbs[LIMBS - 1] > Self::MASK;
                 limbs[LIMBS - 1] &= Self::MASK;
             }
